@@ -49,6 +49,16 @@ def reset_concurrency_limiter(token: Any) -> None:
     _concurrency_limiter.reset(token)
 
 
+def _resumes_interrupt(node: HyperNode, state: GraphState) -> bool:
+    """True when ``node`` is an interrupt whose response is already in the state (resume path)."""
+    from hypergraph.nodes.interrupt import InterruptNode
+
+    if not isinstance(node, InterruptNode) or node.name in state.node_executions:
+        return False
+    data_outputs = node.data_outputs
+    return bool(data_outputs) and all(o in state.values for o in data_outputs)
+
+
 async def run_superstep_async(
     graph: Graph,
     state: GraphState,
@@ -102,8 +112,10 @@ async def run_superstep_async(
         wait_for_versions = {name: state.get_version(name) for name in node.wait_for}
 
         # Check cache before execution
+        # A response the caller supplied for an interrupt is what passes it: a cached
+        # (auto-resolved) response must not replace it, nor is the supplied one cached.
         cache_key, cached_outputs = ("", None)
-        if cache is not None:
+        if cache is not None and not _resumes_interrupt(node, state):
             cache_key, cached_outputs = check_cache(node, inputs, cache)
 
         if cached_outputs is not None:
